@@ -59,6 +59,7 @@ theorem recv_sound (hl : ∀ s, (cfg.lower s).length = s.length) (n : Nat) (ih :
   | notUndef x => exact recv_notUndef cfg sfh n ih x b v hw H h hi
   | typ x => exact recv_typ cfg sfh hl x b v H h hi
   | sensitive x => exact recv_sensitive cfg sfh n ih x b v hw H h hi
+  | iterator x => exact recv_iterator cfg sfh x b v h hi
   | iterable x => have := H.fa; unfold Ty.Frag at this; exact absurd this id
   | object p => exact recv_object cfg sfh p b v h hi
 
